@@ -108,6 +108,7 @@ class Gen:
             resp_weights=dict(ret=45, retd=5, ans=14, ansarc=8, pan=8, unm=10, dfl=10),
             final="drop",               # drop | verify | report | mixed | none
             full_mask_frac=0.15,
+            nvid_frac=0.07,             # the original is switched to no_verify_in_drop() at a random point of the history
         )
         self.k.update(kw)
         self.tag = 0
@@ -245,6 +246,8 @@ class Gen:
             mid = rng.choice(mentioned) if mentioned and rng.random() < 0.85 else rng.choice(call_mids)
             arg = fav_arg if rng.random() < 0.5 else rng.randrange(NARGS)
             evs.append({"base": ("call", rng.choice(live), mid, arg)})
+        if rng.random() < self.k["nvid_frac"]:
+            evs.insert(rng.randint(0, len(evs)), {"base": ("nvid", 0)})
         # dispose: clones first, then the original
         for i in sorted(live, reverse=True):
             if i != 0:
